@@ -3,6 +3,7 @@
 -/
 import CM.Driver.Codec
 import CM.Driver.RelOps
+import CM.Driver.BagOps
 import CM.Model.Shard
 import CM.Model.Impure
 import CM.Model.Loopback
@@ -193,6 +194,7 @@ def dispatch (j : Json) : P Json := do
   | "lru" => opLru j
   | "loopback" => opLoopback j
   | "shard" => opShard j
+  | "bag" => opBag j
   | "ping" => pure (Json.mkObj [("pong", .bool true)])
   | _ => throw s!"unknown op {op}"
 
